@@ -285,8 +285,13 @@ def run(ctx):
             if on_escape:
                 return "escape_is_some"
         return None
-    g = C.G(prim.event_graph(ws, lambda t: None, branch_role=brole))
-    eofs = g.nodes("eof")
+    try:
+        g = C.G(prim.event_graph(ws, lambda t: None, branch_role=brole))
+    except RuntimeError as e:
+        # too many path states (a long chain of bool temporaries): this one clause stays undecided, the others go on
+        g = None
+        ctx.ob("R3", "eof-in-quote=>error", False, "cannot decide: %s" % e, fn=ws, how="event graph")
+    eofs = g.nodes("eof") if g is not None else []
     ok = False
     if len(eofs) >= 1:
         for e in eofs:
@@ -294,7 +299,8 @@ def run(ctx):
             # Some(Quote) => Err
             r = set(tr) | g.reach(tr)
             ok = any(C.base(x) == "escape_kind" for x in r) and all("RET(agg:Result::Err)" in g.succ(k, "1") for k in r if C.base(k) == "escape_kind")
-    ctx.ob("R3", "eof-in-quote=>error", ok, "at end of input an open quote must be reported as an error (Escape::Quote => Err); events: %s" % g.fmt(), fn=ws, how="event graph")
+    if g is not None:
+        ctx.ob("R3", "eof-in-quote=>error", ok, "at end of input an open quote must be reported as an error (Escape::Quote => Err); events: %s" % g.fmt(), fn=ws, how="event graph")
     # unconsumed bytes saved
     pw = []
     for b in ws.reachable():
